@@ -286,6 +286,10 @@ func oracle(c *Ctx, src []byte, lineMode bool, recs, post []rec, panicked string
 		} else {
 			byKey[k] = r.tok
 		}
+		// tokens with a single possible value: the lexer's object is the one every other part of the program gets
+		if tt > token.REGISTER && tt < token.EOF && token.ByType(tt) != r.tok {
+			fail("constant-token-duplicate-object:"+tt.String(), "lexer object differs from token.ByType")
+		}
 		if isEndTok(r.tok) {
 			// what is under the end marker: nothing (true end of input) or, in line mode only, an
 			// unterminated string running to the end of input (continuation protocol)
